@@ -328,6 +328,55 @@ func c15Tickets(c *Ctx, p *Prog) {
 		ob.HoldNT("delete + serialize dominate the %d returning site(s); isValid() guards them", nOut)
 	}
 
+	// the store is written back whenever serialize reports success (also when it has become empty:
+	// a redeemed ticket must not survive a restart)
+	ob = c.Obl("R3", "transports/scramblesuit:(*ssTicketStore).serialize#writes-back", "serialize reports success only after the whole store, whatever its size, went to the ticket file: every nil return is the file write's own result or follows a successful file write of json.Marshal(all entries)")
+	if sz := p.Func("transports/scramblesuit:(*ssTicketStore).serialize"); sz == nil {
+		ob.Undecide("serialize not found")
+	} else {
+		isWrite := func(call *ssa.Call) bool {
+			if call == nil {
+				return false
+			}
+			switch p.CalleeID(call.Common()) {
+			case M("$M/internal/atomicfile.WriteFile"), "os.WriteFile", "io/ioutil.WriteFile":
+				return len(call.Common().Args) >= 1 && isFieldLoad(call.Common().Args[0], tSSStore, "filePath")
+			}
+			return false
+		}
+		sff := p.Facts(sz)
+		bad := ""
+		n := 0
+		for _, r := range returnsOf(sz) {
+			v := unspill(r.Results[0])
+			if cc, _ := callOf(v); isWrite(cc) {
+				n++
+				continue
+			}
+			if sff.ProvablyNonNil(r.Results[0], r.Block(), 0) {
+				continue
+			}
+			okW := false
+			for cc := range sff.SucceededCalls(r.Block()) {
+				if isWrite(cc) {
+					okW = true
+					n++
+				}
+			}
+			if !okW {
+				bad = "serialize can report success at " + p.InstrPos(r) + " without having written the ticket file"
+			}
+		}
+		if n == 0 && bad == "" {
+			bad = "serialize never writes the ticket file"
+		}
+		if bad != "" {
+			ob.Violate("%s", bad)
+		} else {
+			ob.HoldNT("%d success exit(s), each through the file write", n)
+		}
+	}
+
 	ob = c.Obl("R3", tSSTick+".issuedAt#provenance", "validity is judged by the time the ticket was issued: issuedAt is time.Now().Unix() when a ticket arrives from the server and the persisted IssuedAt when the store is loaded (never re-stamped on load); isValid compares issuedAt + 7 days with the current time")
 	bad = ""
 	ld := p.Func("transports/scramblesuit:loadTicketStore")
